@@ -38,7 +38,9 @@ LEVEL_TEXT = (
     "operations of every kind (also degenerate ones: empty bodies, empty ranges, nested empties). On executed runs "
     "the set of reserved registers the real builder passes to the assembler equals the model's active registers at "
     "that flush, and (model-free) the registers the real assembler introduces are disjoint from the registers live at "
-    "that flush; histories with registers live across flushes run on the real Executor against direct evaluation. "
+    "that flush; histories with registers live across flushes, and histories whose loop_until / if conditions are "
+    "RegFutures (new_register register, loop counters, M registers), run on the real Executor against direct "
+    "evaluation. "
     "The model is of /repo with the F17 fix commits.")
 LEVEL_NOTE = (
     "Trusted: Lean kernel; harness/sdk.py (interpreter of the host AST through the SDK API, canonicalisation); the "
@@ -109,6 +111,14 @@ def _leak_check(H, prog, res, what):
             return out
         before = after
     return None
+
+
+def _with_history(f, prog):
+    """the history up to the failing operation: what `replay` re-runs"""
+    f = dict(f)
+    if "step" in f and "history" not in f:
+        f["history"] = prog[:f["step"] + 1]
+    return f
 
 
 def _shrink_leak(H, f):
@@ -203,7 +213,7 @@ def run(ctx):
         f = _leak_check(H, w, res, name)
         if f:
             res.failures.append({"what": f["what"], "kf": None,
-                                 "input": _shrink_leak(H, f) if len(res.failures) < 3 else f})
+                                 "input": _with_history(_shrink_leak(H, f), w) if len(res.failures) < 3 else f})
 
     # -- stream A: random well-scoped programs and adversarial ones (error paths: 17 nested loops, >16 M registers,
     #    bad handles, type errors)
@@ -227,7 +237,7 @@ def run(ctx):
         f = _leak_check(H, prog, res, "long")
         if f:
             res.failures.append({"what": f["what"], "kf": None,
-                                 "input": _shrink_leak(H, f) if len(res.failures) < 3 else f})
+                                 "input": _with_history(_shrink_leak(H, f), prog) if len(res.failures) < 3 else f})
         res.count("long-sequence-ops", n_ops)
 
     # -- stream C: model-free leak oracle on the random programs' single operations, each repeated 20 times
@@ -246,7 +256,7 @@ def run(ctx):
         res.count("repeat-kind:" + ("degenerate-" if deg else "") + op["k"])
         if f:
             res.failures.append({"what": f["what"], "kf": None,
-                                 "input": _shrink_leak(H, f) if len(res.failures) < 3 else f})
+                                 "input": _with_history(_shrink_leak(H, f), prog) if len(res.failures) < 3 else f})
     # -- stream D: end-to-end (shared with C05): a temporary must never sit in a live register of an enclosing
     #    operation — nested operations, explicit loop registers (lowest free / any free), run on the real
     #    Executor against the direct interpreter
@@ -300,6 +310,49 @@ def run(ctx):
                 small = H.shrink(prog, still, 200, 20)
                 det = [x for x in H.oracle(small, outs)[1] if x.get("feature") in ctrl_level] or det
             res.failures.append({"what": "a register live across flushes did not survive a later subroutine: "
+                                         + det[0]["what"], "kf": None,
+                                 "input": {"program": small, "outcomes": outs, "detail": det[:3]}})
+    # -- stream H: exit / branch conditions that are RegFutures — loop_until and if_* on a new_register() register,
+    #    on the counter of an enclosing loop_body / of the loop_until itself, on an M register of
+    #    measure(store_array=False).  The condition operand is not a temporary: (1) model-free, compile only: the
+    #    active set after every completed operation equals the one before, nothing raises; (2) executed: scratch
+    #    vs live registers, controller registers / arrays / trace against direct evaluation; (3) tie as in G
+    nH = 900 if ctx.thorough else 110
+    for _ in range(nH):
+        prog = H.regfuture_conditions(rng)
+        outs = [rng.randrange(2) for _ in range(64)]
+        res.evaluations += 1
+        f = _leak_check(H, prog, res, "regfuture-conditions")
+        if f:
+            f["history"] = prog[:f["step"] + 1]
+            if sum(1 for x in res.failures if x["kf"] is None) < 6:
+                # what the released register costs when the history is executed: the next temporary lands in it
+                st, det = H.oracle(prog, outs)
+                f["executed"] = [x for x in (det or []) if isinstance(x, dict) and x.get("feature") in ctrl_level][:3]
+                f["program"], f["outcomes"] = prog, outs
+            res.failures.append({"what": f["what"], "kf": None, "input": f})
+            res.count("regfuture-conditions:leak")
+            continue
+        keep = {}
+        st, det = H.oracle(prog, outs, keep=keep)
+        det = [x for x in (det or []) if isinstance(x, dict) and x.get("feature") in ctrl_level]
+        res.count("regfuture-conditions:" + ("fail" if det else st))
+        real = keep.get("real")
+        if real is not None and real.err is None:
+            d = H.compare_syntactic(prog, real, drv.call({"op": "sdk.run", "p": prog}))
+            res.nontrivial.add(hash(H.dumps(prog)))
+            if d is not None:
+                res.disagreements.append({"stream": "sdk.regfuture-conditions", "input": prog, "model": d,
+                                          "code": "see model/real diff"})
+        if st == "fail" and det:
+            small = prog
+            if sum(1 for x in res.failures if x["kf"] is None) < 3:
+                def still_h(q):
+                    s2, d2 = H.oracle(q, outs)
+                    return s2 == "fail" and any(x.get("feature") == det[0]["feature"] for x in d2)
+                small = H.shrink(prog, still_h, 200, 20)
+                det = [x for x in H.oracle(small, outs)[1] if x.get("feature") in ctrl_level] or det
+            res.failures.append({"what": "a RegFuture used as exit/branch condition did not stay live: "
                                          + det[0]["what"], "kf": None,
                                  "input": {"program": small, "outcomes": outs, "detail": det[:3]}})
     # -- stream E: an explicit loop register that is in use must be rejected (never silently shared)
@@ -410,6 +463,10 @@ def replay(ctx, payload):
             "scratch-live", "ctrl-reg", "ctrl-array", "trace", "raise", "flushes")]
         print("replay:", st, json.dumps(det)[:1500])
         return 1 if st == "fail" and det else 0
+    if "history" in f and "minimal" not in f:  # the history itself: leak / raise at its last operation
+        g = _leak_check(H, f["history"], None, "replay")
+        print("replay:", json.dumps(g)[:1500])
+        return 1 if g else 0
     prog = f.get("minimal") or [f.get("op")]
     base = [{"k": "arr", "len": 2, "init": [0, 1]}, {"k": "arr", "len": 2, "init": [1, 1]},
             {"k": "arr", "len": 2, "init": [2, 0]}]
